@@ -192,7 +192,7 @@ PROPS = {
         assumptions=["the sink obeys the Write contract (accepts at most the slice length)"]),
     "C01": dict(
         module="Flussab.Props.C01", modules=["Flussab.Props.C01", "Flussab.Props.C01Btor2"],
-        engines=[("aiger", 3000, 150000, "rt+layout+mutate+arbitrary+utf8+huge"), ("cnf", 4000, 200000, "mix"), ("btor2", 3000, 150000, "rt+layout+kinds+mutate+arbitrary+kw"), ("reader", 1500, 50000, ""), ("btor2", 160, 640, "scale"), ("cnf", 270, 2600, "scale"), ("reader", 470, 1050, "scale"), ("aiger", 40, 300, "scale")], release=True,
+        engines=[("aiger", 3000, 150000, "rt+layout+mutate+arbitrary+utf8+huge"), ("cnf", 4000, 200000, "mix"), ("btor2", 3000, 150000, "rt+layout+kinds+mutate+arbitrary+kw"), ("reader", 1500, 50000, ""), ("btor2", 160, 640, "scale"), ("cnf", 270, 2600, "scale"), ("reader", 470, 1050, "scale"), ("aiger", 40, 300, "scale"), ("cnf", 900, 2000, "dict"), ("btor2", 900, 2000, "dict"), ("aiger", 900, 2000, "dict")], release=True,
         audit_observables=True,
         bv_decide_theorems=["multi_scanners_buffer_independent", "btor2_lowercase_kernel", "btor2_lowercase_kernel_no_panic",
                             "btor2_lowercase_eq_spec", "btor2_lowercase_buffer_independent", "btor2_lowercase_eq_spec_const"],
@@ -294,7 +294,7 @@ PROPS = {
         assumptions=["input shorter than 2^63 bytes"]),
     "C05": dict(
         module="Flussab.Props.C05", modules=["Flussab.Props.C05Aiger", "Flussab.Props.C05", "Flussab.Props.C05Btor2"],
-        engines=[("aiger", 4000, 150000, "mutate+arbitrary+utf8+huge+corrupt"), ("cnf", 5000, 250000, "mutate+arbitrary+corrupt+logmut+layout"), ("btor2", 4000, 150000, "mutate+arbitrary+corrupt+kw"), ("btor2", 160, 640, "scale"), ("cnf", 270, 2600, "scale"), ("aiger", 40, 300, "scale")],
+        engines=[("aiger", 4000, 150000, "mutate+arbitrary+utf8+huge+corrupt"), ("cnf", 5000, 250000, "mutate+arbitrary+corrupt+logmut+layout"), ("btor2", 4000, 150000, "mutate+arbitrary+corrupt+kw"), ("btor2", 160, 640, "scale"), ("cnf", 270, 2600, "scale"), ("aiger", 40, 300, "scale"), ("cnf", 900, 2000, "dict"), ("btor2", 900, 2000, "dict"), ("aiger", 900, 2000, "dict")],
         release=True,
         claim="Every Rust panic site is an explicit value in the models (advance / slice beyond scanned data, column "
               "underflow, from_utf8().unwrap(), line_at_offset overflow, NonZeroU64::new(0).unwrap(), loop fuel). "
@@ -328,7 +328,7 @@ PROPS = {
         assumptions=["document shorter than 2^64 - 1 bytes"]),
     "C08": dict(
         module="Flussab.Props.C08", modules=["Flussab.Props.C08", "Flussab.Props.C08Btor2", "Flussab.Props.C08Aiger"],
-        engines=[("aiger", 4000, 150000, "corrupt+mutate+arbitrary+utf8"), ("cnf", 5000, 250000, "corrupt+mutate+arbitrary+logmut"), ("btor2", 4000, 150000, "corrupt+mutate+arbitrary"), ("btor2", 112, 480, "scale:ws_nl+ws_mix+just_err+num+sym+cmt+const+lines+ls"), ("cnf", 270, 600, "scale"), ("aiger", 40, 300, "scale:err")], release=True,
+        engines=[("aiger", 4000, 150000, "corrupt+mutate+arbitrary+utf8"), ("cnf", 5000, 250000, "corrupt+mutate+arbitrary+logmut"), ("btor2", 4000, 150000, "corrupt+mutate+arbitrary"), ("btor2", 112, 480, "scale:ws_nl+ws_mix+just_err+num+sym+cmt+const+lines+ls"), ("cnf", 270, 600, "scale"), ("aiger", 40, 300, "scale:err"), ("cnf", 900, 2000, "dict"), ("btor2", 900, 2000, "dict"), ("aiger", 900, 2000, "dict")], release=True,
         claim="Range, for every input and both source kinds: cnf_error_in_range, log_error_in_range, "
               "btor2_error_in_range - a reported (line, col) satisfies 1 <= line <= nlines+1 and 1 <= col <= "
               "lineLen(line)+1 (lines as the property counts them), from the invariant 'line = 1 + newlines before "
